@@ -22,6 +22,7 @@ boot.ensure_env()
 from sim.core import evidence, findings, prng, runner  # noqa: E402
 
 SYSTEM_OF = {"C16": "fits", "C11": "purity", "C15": "preloads"}
+STANDIN_SYSTEMS = {"purity"}  # systems whose worlds include interferometer objects (need the pylops stand-in, see boot.py)
 
 
 def cmd_setup(args):
@@ -39,9 +40,9 @@ def cmd_replay(args):
     args.file = os.path.abspath(args.file)
     with open(args.file) as f:
         case = json.load(f)
-    boot.boot()
-    recorded = case.pop("violation", None)
     system_name = case.get("system") or SYSTEM_OF[case["property"]]
+    boot.boot(pylops_standin=system_name in STANDIN_SYSTEMS)
+    recorded = case.pop("violation", None)
     known = [] if args.ignore_known else findings.load()
     cfg = {"tier": "replay", "mode": case.get("mode", "")}
     res = runner.execute_isolated(system_name, case.get("run_seed", 0), case, cfg, known)
@@ -73,11 +74,11 @@ def cmd_shrink(args):
     out = os.path.abspath(args.out)
     with open(args.file) as f:
         case = json.load(f)
-    boot.boot()
+    system_name = case.get("system") or SYSTEM_OF[case["property"]]
+    boot.boot(pylops_standin=system_name in STANDIN_SYSTEMS)
     from sim.core import shrink as shrink_mod
 
     recorded = case.pop("violation")
-    system_name = case.get("system") or SYSTEM_OF[case["property"]]
     system = runner.load_system(system_name)
     known = [] if args.ignore_known else findings.load()
     cfg = {"tier": "replay", "mode": case.get("mode", "")}
@@ -101,7 +102,7 @@ def cmd_check(args):
     t0 = time.monotonic()
     pid = args.property
     system_name = SYSTEM_OF[pid]
-    boot.boot()
+    boot.boot(pylops_standin=system_name in STANDIN_SYSTEMS)
     system = runner.load_system(system_name)
     tier = args.tier
     tcfg = dict(system.TIERS[tier])
@@ -248,7 +249,7 @@ def cmd_selftest_determinism(args):
 def cmd_digests(args):
     import hashlib
 
-    boot.boot()
+    boot.boot(pylops_standin=args.system in STANDIN_SYSTEMS)
     system = runner.load_system(args.system)
     h = hashlib.sha256()
     for mode, _ in system.TIERS["quick"]["batches"]:
